@@ -1298,6 +1298,8 @@ def directed_sessions(drv, rng, defender_tables, on_fail, stats, n):
         cfg["coordinator"]["agents"]["Defender"]["start_position"]["controlled_hosts"] = ["192.168.1.2"]
         cfg["coordinator"]["agents"]["Defender"]["goal"]["known_blocks"] = {"192.168.1.6": ["213.47.23.195"]}      # not reached by the script
         cfg["coordinator"]["agents"]["Defender"].pop("max_steps", None)
+        if rng.random() < 0.7:      # the attacker starts with something to exfiltrate
+            cfg["coordinator"]["agents"]["Attacker"]["start_position"]["known_data"] = {"192.168.2.2": [["User1", "StartData"]]}
         sess = Session(drv, rng, cfg, defender_tables, on_fail, stats, f"directed#{i}")
         try:
             if sess.sim.startup_error is not None or sess.sim.server_cb is None:
